@@ -1,6 +1,8 @@
 #pragma once
 #include <string>
 #include <memory>
+#include <vector>
+#include <algorithm>
 
 #include "type.h"
 
@@ -60,6 +62,37 @@ namespace sqf::runtime
         /// </summary>
         /// <returns>String representing this datatype.</returns>
         virtual std::string to_string() const = 0;
+
+        /// <summary>
+        /// Appends the data this value directly contains (the elements of an array, the keys and values of a hashmap).
+        /// Containers override this, so that a container reaching itself is recognized across container kinds.
+        /// </summary>
+        virtual void contained(std::vector<std::shared_ptr<data>>& out) const {}
+
+        /// <summary>
+        /// True if this value (transitively) contains itself or one of the values it contains does.
+        /// </summary>
+        bool contains_itself() const
+        {
+            std::vector<const data*> path{ this };
+            return contains_on_path(path);
+        }
+    private:
+        bool contains_on_path(std::vector<const data*>& path) const
+        {
+            std::vector<std::shared_ptr<data>> children;
+            contained(children);
+            for (auto& child : children)
+            {
+                if (!child) { continue; }
+                if (std::find(path.begin(), path.end(), child.get()) != path.end()) { return true; }
+                path.push_back(child.get());
+                if (child->contains_on_path(path)) { return true; }
+                path.pop_back();
+            }
+            return false;
+        }
+    public:
 
         /// <summary>
         /// Compares this value against the other value and returns
